@@ -9,8 +9,8 @@ CHECKS = {
     'C01': dict(
         engine='list',
         technique='Lean 4 proof (induction: deque loop = ASTM stack machine; pv = reversal sequence; table = histogram; conservation) + exact model/implementation correspondence on the dyadic grid',
-        text='Theorems for every history: the code-shaped model of astmRainflowCounting equals the E1049 5.4.4 stack machine on the reversal sequence cycle for cycle, its table is the histogram of its cycles, and the counts total (R-1)/2. The model is tied to /repo/src by exact differential correspondence (sequence, table and matrix outputs) on tie-rich histories; the same Lean predicates are evaluated on the implementation output.',
-        note='Trusted: Lean kernel + 3 standard axioms; hand-written model FF.implGo/FF.pv tied by correspondence (sampled, plus all histories <= 6 points over 4 values quick / <= 8 over 5 thorough); integer (dyadic-grid) arithmetic stands for exact float arithmetic; numpy coercion and dict/argsort aggregation compared not proved. Max-range and closed-loop clauses: see DESIGN §5.',
+        text='Theorems for every history: the code-shaped model of astmRainflowCounting equals the E1049 5.4.4 stack machine on the reversal sequence cycle for cycle, its table is the histogram of its cycles, the counts total (R-1)/2, the largest counted range is the overall range max-min, and every whole cycle was extracted as a closed loop (nested in both neighbouring ranges). The model is tied to /repo/src by exact differential correspondence (sequence, table and matrix outputs) on tie-rich histories; the same Lean predicates are evaluated on the implementation output.',
+        note='Trusted: Lean kernel + 3 standard axioms; hand-written model FF.implGo/FF.pv tied by correspondence (sampled, plus all histories <= 6 points over 4 values quick / <= 8 over 5 thorough); integer (dyadic-grid) arithmetic stands for exact float arithmetic; numpy coercion and dict/argsort aggregation compared not proved.',
         ref='§5 C01'),
     'C02': dict(
         engine='list',
@@ -33,8 +33,8 @@ CHECKS = {
     'C06': dict(
         engine='list',
         technique='Lean 4 proof (one whole cycle per local maximum of the de-plateaued history; unique-top scan equivalence) + exact model/implementation correspondence + small-scope exhaustive test for the unproved clauses',
-        text='Theorems for every history: each interior local maximum of the de-plateaued history yields exactly one whole Rychlik and one whole Johannesson cycle whose top is that maximum; with a unique top the Rychlik bottom is the higher of the two one-sided minima (partial: stated on the reversal sequence). The raw-history form of the bottoms and the Rychlik = rainflow table clause on histories closed at the global minimum are NOT proved: they are evaluated by Lean predicates on the implementation output over random and all small histories (a test). Models tied to /repo/src by exact correspondence.',
-        note='Trusted: Lean kernel + standard axioms; hand-written models FF.rychlik/FF.johannesson tied by sampled + small-scope-exhaustive exact correspondence. Tested-only clauses: bottoms in terms of raw samples, Rychlik table = rainflow table (C06.RainflowEqStatement is a def, not a theorem). Known finding: constant histories.',
+        text='Theorems for every history: each interior local maximum of the de-plateaued history yields exactly one whole Rychlik and one whole Johannesson cycle whose top is that maximum; the Johannesson bottom is the lowest de-plateaued sample since the history was last at or above the top (raw-history form, no uniqueness needed); with a unique top the Rychlik bottom is the higher of the two one-sided minima (partial: stated on the reversal sequence). The raw-history form of the Rychlik bottom and the Rychlik = rainflow table clause on histories closed at the global minimum are NOT proved: they are evaluated by Lean predicates on the implementation output over random and all small histories (a test). Models tied to /repo/src by exact correspondence.',
+        note='Trusted: Lean kernel + standard axioms; hand-written models FF.rychlik/FF.johannesson tied by sampled + small-scope-exhaustive exact correspondence. Tested-only clauses: Rychlik bottom in terms of raw samples, Rychlik table = rainflow table (C06.RainflowEqStatement is a def, not a theorem). Known finding: constant histories.',
         ref='§5 C06'),
     'C07': dict(
         engine='list',
